@@ -85,23 +85,20 @@ class System(SharedRegistryObject):
 
     @property
     def members(self):
+        # Computed on demand: the groups memoise (and invalidate) their own
+        # members, a memo here would never be reset by a group edit.
         d = self._REGISTRY._groups
-        if self._computed_members is None:
-            tmp: set[str] = set()
+        tmp: set[str] = set()
 
-            for group_name in self._used_groups:
-                try:
-                    tmp |= d[group_name].members
-                except KeyError:
-                    logger.warning(
-                        "Could not resolve {} in System {}".format(
-                            group_name, self.name
-                        )
-                    )
+        for group_name in self._used_groups:
+            try:
+                tmp |= d[group_name].members
+            except KeyError:
+                logger.warning(
+                    "Could not resolve {} in System {}".format(group_name, self.name)
+                )
 
-            self._computed_members = frozenset(tmp)
-
-        return self._computed_members
+        return frozenset(tmp)
 
     def invalidate_members(self):
         """Invalidate computed members in this Group and all parent nodes."""
